@@ -306,7 +306,7 @@ func randBlock8(rng *Rand, kind int) []byte {
 // (2) DCTISlow / IDCTISlow (exported) on random blocks incl. extremes, Nyquist
 // checkerboards and int32-wrapping coefficient magnitudes.
 func corrKernels(c *Ctx, rng *Rand) {
-	n := c.N(400, 6000)
+	n := c.N(1500, 20000)
 	type kc struct {
 		blk  []byte
 		coef []int32
@@ -358,7 +358,7 @@ func corrKernels(c *Ctx, rng *Rand) {
 // (3) DCT + quantiser of both encoders: the coefficients read back from the emitted
 // stream by the harness's entropy decoder = the model's quantised blocks (ties included).
 func corrCoefs(c *Ctx, rng *Rand) {
-	n := c.N(150, 2500)
+	n := c.N(400, 5000)
 	type cc struct {
 		w, h, q int
 		twelve  bool
@@ -418,7 +418,7 @@ func corrCoefs(c *Ctx, rng *Rand) {
 // baseline.Decode; rgbToYCbCr via baseline.Encode of block-constant RGB images at quality
 // 100, reading the DC coefficients back (DC = 8*(v-128), AC = 0).
 func corrColour(c *Ctx, rng *Rand) {
-	rounds := c.N(8, 120)
+	rounds := c.N(16, 400)
 	const bw, bh = 16, 16 // 256 triples per image
 	ext := []int{0, 1, 127, 128, 129, 254, 255, 16, 235, 240}
 	seeds := make([]uint64, rounds)
@@ -499,7 +499,7 @@ func corrColour(c *Ctx, rng *Rand) {
 
 // (5) whole lossy path on small images: model pipeline = baseline.Decode(baseline.Encode(x)).
 func corrPipeline(c *Ctx, rng *Rand) {
-	n := c.N(120, 2000)
+	n := c.N(300, 4000)
 	type pc struct {
 		w, h, comps, q int
 		px             []byte
@@ -535,7 +535,7 @@ func corrPipeline(c *Ctx, rng *Rand) {
 // constant; the decoded picture must show, at every pixel, the block the model's index
 // functions (parseSOF sizes, blockOffset, skip rule, convertToPixels scaling) say.
 func corrGeometry(c *Ctx, rng *Rand) {
-	n := c.N(60, 800)
+	n := c.N(160, 1600)
 	samp := []string{"444", "422", "420", "440"}
 	hv := map[string]string{"444": "1,1,1,1,1,1", "422": "2,1,1,1,1,1", "420": "2,2,1,1,1,1", "440": "1,2,1,1,1,1"}
 	type gc struct {
